@@ -89,7 +89,7 @@ theorem save_uses_newest (ops : List Op) (k : String) (vs : Versions)
     have := (Versioned.Lemmas.vget_isSome_iff 1 vs v hk).mp (by simp [hv])
     omega
 
-/-- The unrepaired `__setitem__` of the pinned tree (finding F16): version 0 is accepted and a
+/-- The unrepaired `__setitem__` of the pinned tree (finding F-C12a): version 0 is accepted and a
 refused assignment leaves an empty entry behind, after which `k in d` is true although `d[k]`
 raises. -/
 theorem orig_set_violates_inv :
